@@ -39,6 +39,60 @@ pub fn run() {
         }
         let a = kv(&line);
         let id: u64 = a["id"].parse().unwrap();
+        if a.get("op").map(|s| s == "reenter").unwrap_or(false) {
+            // a callback that uses the proxy itself: on every message it registers a reply route (whose channel already holds one
+            // message).  The messages of the outer route are queued BEFORE it is registered.  Nothing may deadlock: every outer
+            // message is handled once, in order, every reply route gets its message
+            let nq: u32 = a["n"].parse().unwrap();
+            let proxy = Arc::new(RouterProxy::new());
+            let olog: Arc<Mutex<Vec<u32>>> = Arc::new(Mutex::new(Vec::new()));
+            let rlog: Arc<Mutex<Vec<u32>>> = Arc::new(Mutex::new(Vec::new()));
+            let (tx, rx) = ipc::channel::<u32>().unwrap();
+            for q in 0..nq {
+                tx.send(q).unwrap();
+            }
+            let (p2, ol, rl) = (proxy.clone(), olog.clone(), rlog.clone());
+            let keep: Arc<Mutex<Vec<IpcSender<u32>>>> = Arc::new(Mutex::new(Vec::new()));
+            let k2 = keep.clone();
+            let done = with_watchdog(6_000, move || {
+                p2.clone().add_route(
+                    rx.to_opaque(),
+                    Box::new(move |m| {
+                        if let Ok(q) = m.to::<u32>() {
+                            ol.lock().unwrap().push(q);
+                            let (rtx, rrx) = ipc::channel::<u32>().unwrap();
+                            let _ = rtx.send(100 + q);
+                            let rl2 = rl.clone();
+                            p2.add_route(
+                                rrx.to_opaque(),
+                                Box::new(move |m| {
+                                    if let Ok(v) = m.to::<u32>() {
+                                        rl2.lock().unwrap().push(v);
+                                    }
+                                }),
+                            );
+                            k2.lock().unwrap().push(rtx);
+                        }
+                    }),
+                );
+            });
+            // one more message after the registration
+            let _ = tx.send(nq);
+            let t0 = std::time::Instant::now();
+            while (olog.lock().unwrap().len() < (nq + 1) as usize || rlog.lock().unwrap().len() < (nq + 1) as usize) && t0.elapsed().as_secs() < 5 {
+                std::thread::sleep(std::time::Duration::from_millis(2));
+            }
+            let mut replies = rlog.lock().unwrap().clone();
+            replies.sort();
+            println!("{}", json!({"kind":"reenter","id":id,"n":nq,"registered":done.is_some(),"outer":olog.lock().unwrap().clone(),"replies":replies}));
+            // the proxy is leaked on purpose when the scenario deadlocked (shutdown would block too)
+            if done.is_some() {
+                let p = proxy.clone();
+                let _ = with_watchdog(3_000, move || p.shutdown());
+            }
+            std::mem::forget(proxy);
+            continue;
+        }
         if a.get("op").map(|s| s == "sizes").unwrap_or(false) {
             // messages of very different sizes (single packet ... several MiB) on ONE route of each kind: each arrives once, whole, in
             // send order; the consumer sees the end only after the last of them
@@ -424,6 +478,14 @@ pub fn run() {
                     );
                     late_handles.push(ltx);
                 }
+                // ... and a typed route offered after shutdown(): its consumer must see the channel disconnect (nothing will ever come)
+                let mut late_typed_disc = None;
+                if stop_ok {
+                    let (ttx, trx) = ipc::channel::<(u32, u32)>().unwrap();
+                    let cr = proxy.route_ipc_receiver_to_new_crossbeam_receiver(trx);
+                    late_typed_disc = Some(matches!(cr.recv_timeout(std::time::Duration::from_millis(1500)), Err(crossbeam_channel::RecvTimeoutError::Disconnected)));
+                    drop(ttx);
+                }
                 late_log = late_handles.iter().map(|_| 0).collect();
                 let at_return = log.0.lock().unwrap().clone();
                 let xafter: Vec<(u32, bool)> = xrecv
@@ -463,7 +525,7 @@ pub fn run() {
                     json!({"kind":"router","id":id,"stop":stop,"stop_ok":stop_ok,"panicked":PANICKED.load(Ordering::SeqCst),
                            "log_before_stop": fin[..before_stop.min(fin.len())], "log_at_return": at_return[before_stop.min(at_return.len())..],
                            "log_after": fin[at_return.len().min(fin.len())..], "xlog": xlog, "xafter": xafter, "late": late_log.len(),
-                           "drops_at_return": at_ret.lock().unwrap().clone()})
+                           "drops_at_return": at_ret.lock().unwrap().clone(), "late_typed_disc": late_typed_disc})
                 );
                 drop(late_handles);
                 drop(wave2_keep);
